@@ -110,6 +110,22 @@ class H:
         self.body_hook = None  # callable(call) inside the body (C18 identity checks, mutation)
         self.trace = []  # generic ordered trace of ("start"/"end", nid, seq)
 
+    # ------------------------------------------------------------------ muted use (pre-use of an object before a derivation)
+    _LOGS = ("calls", "injected", "inflight_log", "steps", "decisions", "trace")
+    _MAPS = ("inv", "last_val", "fresh", "run_steps", "run_parent")
+
+    def snapshot(self):
+        return ({k: len(getattr(self, k)) for k in self._LOGS}, {k: dict(getattr(self, k)) for k in self._MAPS}, (self.seq, self.inflight, self.inflight_peak, self.ch, self.fault, self.suspend, self.step_hook, self.step_end_hook, self.body_hook))
+
+    def restore(self, snap):
+        lens, maps, (self.seq, self.inflight, self.inflight_peak, self.ch, self.fault, self.suspend, self.step_hook, self.step_end_hook, self.body_hook) = snap
+        for k, n in lens.items():
+            del getattr(self, k)[n:]
+        for k, d in maps.items():
+            m = getattr(self, k)
+            m.clear()
+            m.update(d)
+
     # ------------------------------------------------------------------ choices
     def choose(self, kind, label, n):
         if self.ch is None:
@@ -585,10 +601,33 @@ def build(program, h, nodes_out=None):
             except Exception:  # noqa: BLE001 - a decoy that cannot be derived is simply not there
                 pass
     if program.get("entry"):
+        if program.get("preuse") is not None:
+            preuse(g, program["preuse"], h, any(s.get("async") for s in program["nodes"]))
         g = g.with_entrypoint(*program["entry"])
     if program.get("select") is not None:
+        if program.get("preuse") is not None:
+            preuse(g, program["preuse"], h, any(s.get("async") for s in program["nodes"]))
         g = g.select(*program["select"])
     return g
+
+
+def preuse(g, inputs, h, is_async):
+    """Use a graph object the ordinary way (read its spec, run it once) BEFORE something is derived from it.  The harness
+    logs are rolled back afterwards: the run leaves no trace in the observations, only (possibly) in the objects."""
+    snap = h.snapshot()
+    h.ch = h.fault = h.step_hook = h.step_end_hook = h.body_hook = None
+    h.suspend = False
+    try:
+        g.inputs
+        ins = {k: canon(v) for k, v in inputs.items()}
+        if is_async:
+            run_async(g, ins, h, None, max_iterations=40, error_handling="continue")
+        else:
+            run_sync(g, ins, h, max_iterations=40, error_handling="continue")
+    except Exception:  # noqa: BLE001 - the pre-use is best effort (e.g. the parent needs other inputs)
+        pass
+    finally:
+        h.restore(snap)
 
 
 # ---------------------------------------------------------------------- running
